@@ -158,14 +158,21 @@ pub fn step_market_op<const N: usize, const L: usize, const WHICH: u8>(m: usize,
             ref_cancel(&mut r, id);
         }
         _ => {
-            // pure reductions and same-price re-queues (keeps the per-side volume bound trivially)
+            // volume not above the current one (keeps the per-side volume bound trivially); the price is
+            // omitted or restated: (None, Some v) reduces in place or re-queues at v == volume,
+            // (Some current price, _) always re-queues
             assume(nv >= 1 && nv <= entry_order(&pa.e[id]).vol);
-            if which == 4 {
-                market.modify_order((a, id), None, Some(nv));
-            } else {
-                market.process_event(Event::Modify { order_id: (a, id), new_price: None, new_vol: Some(nv) });
+            let np = if any_bool() { Some(entry_order(&pa.e[id]).price) } else { None };
+            let nvo = if np.is_none() || any_bool() { Some(nv) } else { None };
+            if let Some(px) = np {
+                assume(px > 0 && px < Price::MAX);
             }
-            ref_modify(&mut r, id, None, Some(nv));
+            if which == 4 {
+                market.modify_order((a, id), np, nvo);
+            } else {
+                market.process_event(Event::Modify { order_id: (a, id), new_price: np, new_vol: nvo });
+            }
+            ref_modify(&mut r, id, np, nvo);
         }
     }
     let ba = market.verif_book(a);
@@ -182,6 +189,7 @@ pub fn step_market_op<const N: usize, const L: usize, const WHICH: u8>(m: usize,
     vcover!(which == 5 && entry_order(&pa.e[id]).status == Status::New, "cover.new_event_routed");
     vcover!(which == 6 && active(&pa.e[id]), "cover.cancel_event_routed");
     vcover!(which == 7 && active(&pa.e[id]), "cover.modify_event_routed");
+    vcover!((which == 4 || which == 7) && active(&pa.e[id]) && entry_key_time(&r.e[id]) != entry_key_time(&pa.e[id]), "cover.modify_requeued");
     core::mem::forget(market);
 }
 
